@@ -152,6 +152,17 @@ pub fn make_case(w: &World, seed: u64, kind_sel: u64, depth: u32, sane: bool) ->
     let mut rel = Vec::new();
     let mut dumps = Vec::new();
     let mut internal = None;
+    if kind_sel % 13 >= 10 {
+        let i = (seed % 6) as usize;
+        keys.push(i);
+        let k = w.key(i, false);
+        let (desc, kind): (Descriptor<Key>, &'static str) = match kind_sel % 13 {
+            10 => (Descriptor::new_pkh(k).ok()?, "pkh"),
+            11 => (Descriptor::new_wpkh(k).ok()?, "wpkh"),
+            _ => (Descriptor::new_sh_wpkh(k).ok()?, "shwpkh"),
+        };
+        return Some(Case { desc, kind, ms_dump: vec![], keys, abs, rel, internal: None });
+    }
     let (desc, kind): (Descriptor<Key>, &'static str) = match kind_sel % 5 {
         0 | 1 => {
             let ci = CtxInfo { tap: false, legacy_like: false, n_keys: 6 };
@@ -374,6 +385,24 @@ fn emit_case(w: &World, c: &Case, env: &TxEnv, id: u64, sane: bool, rng: &mut Rn
             writeln!(out, "HASH sha256 {} {}", hex(ws.as_bytes()), hex(sha256::Hash::hash(ws.as_bytes()).as_byte_array())).unwrap();
             if c.kind == "shwsh" {
                 let prog = ScriptBuf::new_p2wsh(&ws.wscript_hash());
+                writeln!(out, "HASH hash160 {} {}", hex(prog.as_bytes()), hex(hash160::Hash::hash(prog.as_bytes()).as_byte_array())).unwrap();
+            }
+        }
+        "pkh" => {
+            let h = cache.legacy_signature_hash(0, &spk, EcdsaSighashType::All.to_u32()).unwrap();
+            let msg = Message::from_digest(h.to_byte_array());
+            for &i in c.keys.iter() {
+                ecdsa.insert(i, ecdsa_sig(w, i, msg));
+            }
+        }
+        "wpkh" | "shwpkh" => {
+            let prog = ScriptBuf::new_p2wpkh(&w.pks[c.keys[0]].wpubkey_hash().unwrap());
+            let h = cache.p2wpkh_signature_hash(0, &prog, value, EcdsaSighashType::All).unwrap();
+            let msg = Message::from_digest(h.to_byte_array());
+            for &i in c.keys.iter() {
+                ecdsa.insert(i, ecdsa_sig(w, i, msg));
+            }
+            if c.kind == "shwpkh" {
                 writeln!(out, "HASH hash160 {} {}", hex(prog.as_bytes()), hex(hash160::Hash::hash(prog.as_bytes()).as_byte_array())).unwrap();
             }
         }
@@ -718,8 +747,8 @@ fn emit_case(w: &World, c: &Case, env: &TxEnv, id: u64, sane: bool, rng: &mut Rn
                         Ok(None) => "none".to_string(),
                         Ok(Some((t, a, r))) => format!("plan[{}|{:?}|{:?}]", t.replace(' ', ""), a, r),
                     };
-                    writeln!(out, "HBAD C17 case={} kind={} mode={} what=assets-plan-differs-from-capabilities lock={} seq={} desc={} assets={} lib={} expected={}",
-                        id, c.kind, if mall { "mall" } else { "nonmall" }, lock, seq, c.desc, cfgdesc.replace(' ', ""), show(&a), show(&b)).unwrap();
+                    writeln!(out, "HBAD C17 case={} kind={} mode={} what=assets-plan-differs-from-capabilities lock={} seq={} desc={} assets={} lib={} expected={} libkeys={}",
+                        id, c.kind, if mall { "mall" } else { "nonmall" }, lock, seq, c.desc, cfgdesc.replace(' ', ""), show(&a), show(&b), format!("{:?}", lib.keys).replace(' ', "")).unwrap();
                 }
             }
         }
